@@ -9,7 +9,7 @@
   invocation) are what the theorems talk about; `log_faithful_*` show that these logs are exactly
   the outputs of the operations.
 -/
-import NdnVerif.C20.LemmasLive
+import NdnVerif.C20.LemmasFib
 namespace Ndn.C20
 
 /-- the Interest record as the specification sees it -/
@@ -171,6 +171,55 @@ theorem data_resolves_all_satisfied (ops : List Op) (nm : Name) (dg : Bytes) (id
 example : (step (run St.init [.express [⟨8, [97]⟩, ⟨8, [98]⟩] false (some 100), .express [⟨8, [97]⟩] true none,
     .express [⟨8, [97]⟩] false none, .data [⟨8, [99]⟩] [1], .nack [⟨8, [97]⟩]])
     (.data [⟨8, [97]⟩, ⟨8, [98]⟩] [1])).2.callbacks.map (·.id) = [0] := by decide
+
+/-! ### handlers -/
+
+/-- the ghost handler table `hs` follows the registration history as the specification defines it:
+    `AttachHandler(p)` is refused exactly when a handler is already attached at `p` and otherwise
+    adds `(p, handler)`; `DetachHandler(p)` fails exactly when none is attached at `p` and otherwise
+    removes the handler of `p` and of no other prefix -/
+theorem handler_table_follows_history (ops : List Op) (p : Name) (hid : Nat) :
+    ((step (run St.init ops) (.attach p hid)).2 = .dup ↔ p ∈ (run St.init ops).hs.map (·.1)) ∧
+    ((step (run St.init ops) (.attach p hid)).2 ≠ .dup →
+      (step (run St.init ops) (.attach p hid)).1.hs = (run St.init ops).hs ++ [(p, hid)]) ∧
+    ((step (run St.init ops) (.detach p)).2 = .err ↔ p ∉ (run St.init ops).hs.map (·.1)) ∧
+    ((step (run St.init ops) (.detach p)).2 ≠ .err →
+      (step (run St.init ops) (.detach p)).1.hs = (run St.init ops).hs.filter fun e => !decide (e.1 = p)) := by
+  have I := Inv3.run ops St.init Inv3.init
+  refine ⟨(I.attach p hid).2, ?_, (I.detach p).2, ?_⟩
+  · simp only [step]
+    split
+    · intro h; exact absurd rfl h
+    · intro _; rfl
+  · simp only [step]
+    split
+    · intro h; exact absurd rfl h
+    · split
+      · intro h; exact absurd rfl h
+      · intro _; rfl
+
+/-- **handler is the longest prefix**: in every registration history, an incoming Interest is
+    handed to the handler attached at the longest prefix of its name among the attached prefixes
+    (and to none iff no attached prefix matches) -/
+theorem handler_is_longest_prefix (ops : List Op) (name : Name) (life : Option Nat) :
+    ∃ dl r : Nat, (step (run St.init ops) (.interest name life)).2 =
+      .handled ((Spec.lpm (run St.init ops).hs name).map (·.2)) dl r := by
+  have I := Inv3.run ops St.init Inv3.init
+  have h := lpm_correct I name
+  simp only [step]
+  cases hl : Spec.lpm (run St.init ops).hs name with
+  | none =>
+    rw [hl] at h; simp only [Option.map_none] at h
+    rw [h]; exact ⟨_, _, rfl⟩
+  | some b =>
+    rw [hl] at h; simp only [Option.map_some] at h
+    rw [h]; exact ⟨_, _, rfl⟩
+
+example : (step (run St.init [.attach [⟨8, [97]⟩] 1, .attach [⟨8, [97]⟩, ⟨8, [98]⟩] 2, .attach [] 3,
+    .detach [⟨8, [97]⟩]]) (.interest [⟨8, [97]⟩, ⟨8, [98]⟩, ⟨8, [99]⟩] none)).2 = .handled (some 2) 4000000 0 ∧
+    (step (run St.init [.attach [⟨8, [97]⟩] 1, .attach [⟨8, [97]⟩, ⟨8, [98]⟩] 2, .attach [] 3,
+    .detach [⟨8, [97]⟩]]) (.interest [⟨8, [97]⟩, ⟨8, [99]⟩] none)).2 = .handled (some 3) 4000000 0 := by
+  decide
 
 /-! ### replies -/
 
